@@ -61,6 +61,8 @@ pub struct Ctx {
     pub notes: Vec<String>,
     /// scalars the next customer-side prover call (`Requested::new` / `Ready::start`) is forced to draw first
     pub forced_next: Vec<bls12_381::Scalar>,
+    /// next entry of the long-index-loop secret table to hand out (never the same secret twice within a case)
+    pub long_cursor: usize,
 }
 
 fn fnv(s: &str) -> u64 {
@@ -95,6 +97,7 @@ impl Ctx {
             case_ops: Vec::new(),
             notes: Vec::new(),
             forced_next: Vec::new(),
+            long_cursor: 0,
         }
     }
 
@@ -109,6 +112,8 @@ impl Ctx {
         }
         self.case_id = format!("{}#{}", label, idx);
         self.case_ops.clear();
+        self.long_cursor = idx.wrapping_mul(7);
+        self.forced_next.clear();
         if let Some(o) = &self.only {
             if *o != self.case_id {
                 return false;
